@@ -11,6 +11,7 @@ import (
 	"fmt"
 	"io"
 
+	"filippo.io/age/internal/verifhook"
 	"golang.org/x/crypto/chacha20poly1305"
 )
 
@@ -121,6 +122,7 @@ func (r *Reader) readChunk() (last bool, err error) {
 		return false, errors.New("failed to decrypt and authenticate payload chunk")
 	}
 
+	verifhook.Emit("stream.chunk", int(r.nonce[9])<<8|int(r.nonce[10]), int(r.nonce[11]), len(out))
 	incNonce(&r.nonce)
 	r.unread = r.buf[:copy(r.buf[:], out)]
 	return last, nil
@@ -222,6 +224,7 @@ func (w *Writer) flushChunk(last bool) error {
 	if last {
 		setLastChunkFlag(&w.nonce)
 	}
+	verifhook.Emit("stream.flush", int(w.nonce[9])<<8|int(w.nonce[10]), int(w.nonce[11]), len(w.unwritten))
 	buf := w.a.Seal(w.buf[:0], w.nonce[:], w.unwritten, nil)
 	_, err := w.dst.Write(buf)
 	w.unwritten = w.buf[:0]
